@@ -81,9 +81,9 @@ def r_obligations():
         return nt, n3, term
 
     # every language tag Literal() accepts is written in a form every reader accepts, and vice versa
-    obs["lang/_lang_tag_regex<=LANGTAG"] = (lambda: (rx.to_z3(live()[2]._lang_tag_regex), rx.to_z3(c05.LANGTAG_BODY)), "none")
-    obs["lang/LANGTAG<=_lang_tag_regex"] = (lambda: (rx.to_z3(c05.LANGTAG_BODY), rx.to_z3(live()[2]._lang_tag_regex)), "lang")
-    obs["lang/_lang_tag_regex<=notation3.langcode"] = (lambda: (rx.to_z3(live()[2]._lang_tag_regex), rx.to_z3(live()[1].langcode)), "ttl-lang")
+    obs["lang/_lang_tag_regex<=LANGTAG"] = (lambda: (rx.accepted_language(live()[2], "_lang_tag_regex"), rx.to_z3(c05.LANGTAG_BODY)), "lang-accepted")
+    obs["lang/LANGTAG<=_lang_tag_regex"] = (lambda: (rx.to_z3(c05.LANGTAG_BODY), rx.accepted_language(live()[2], "_lang_tag_regex")), "lang")
+    obs["lang/_lang_tag_regex<=notation3.langcode"] = (lambda: (rx.accepted_language(live()[2], "_lang_tag_regex"), rx.to_z3(live()[1].langcode)), "ttl-lang")
 
     def sparql_lang():
         from rdflib.plugins.sparql import parser as sp
@@ -102,9 +102,9 @@ def r_obligations():
         if rg is None:
             raise rx.Unsupported("sparql.parser.LANGTAG no longer contains a pyparsing Regex")
         # the grammar element is Suppress("@") + Regex(<tag>): compare the tag part
-        return rx.to_z3(live()[2]._lang_tag_regex), rx.to_z3(rg.pattern)
+        return rx.accepted_language(live()[2], "_lang_tag_regex"), rx.to_z3(rg.pattern)
 
-    obs["lang/_lang_tag_regex<=sparql.LANGTAG"] = (sparql_lang, "none")
+    obs["lang/_lang_tag_regex<=sparql.LANGTAG"] = (sparql_lang, "lang-accepted")
 
     def bnode_lbl():
         nt, n3, term = live()
